@@ -1,4 +1,5 @@
 import XsgModel.Proofs.Unique
+import XsgModel.Proofs.SubStruct
 /-!
 # C06 — extending with further documents behaves like inferring from their union
 
@@ -159,6 +160,23 @@ theorem C06_empty_parsed (t : Elem) (evs : List Ev) (p : Nat) (hp : t.position =
     (h1 : firstFault 0 evs = none) (h2 : hasElement 0 evs = false) : extendStruct t evs = .ok t := by
   rw [C06_empty t evs h1 h2]; simp [hp]
 
+/-- **C06 for sub-structures**: the element found at a path of child names inside a parsed structure (for
+example a repeated element taken out of a larger tree: its `standalone` flag is off, its counter is not 1)
+can be extended with documents of its own name, and the result is the schema of the union of *all its
+occurrences* in the parsed documents and the new documents. -/
+theorem C06_substructure (H : List Doc) (h : historyOk H) (p : List Name) (ds : List Doc) :
+    ∃ t, parseHistory (H.map Doc.events) = .ok t ∧
+      ∀ s, elemAt p t = some s → (∀ d ∈ ds, d.ok = true ∧ d.root.name = s.name) →
+        ∃ r, (ds.map Doc.events).foldl extendStep (Except.ok s) = .ok r ∧
+          Matches r (occsAt p (H.map (·.root)) ++ ds.map (·.root)) ∧ r.name = s.name := by
+  obtain ⟨t, ht, hm⟩ := parse_exact H h
+  refine ⟨t, ht, ?_⟩
+  intro s hs hds
+  have hne : H.map (·.root) ≠ [] := by
+    intro e; exact h.1 (List.map_eq_nil_iff.mp e)
+  obtain ⟨hms, hocc⟩ := hm.at_path hne p s hs
+  exact extend_fold ds s _ hocc hms hds
+
 /-- a failed extension reports an error rather than a (partial) tree -/
 theorem C06_error_no_partial (t : Elem) (evs : List Ev) (e : PErr) (h : extendStruct t evs = .error e) :
     ∀ t', extendStruct t evs ≠ .ok t' := by
@@ -167,5 +185,12 @@ theorem C06_error_no_partial (t : Elem) (evs : List Ev) (e : PErr) (h : extendSt
 /-- non-vacuity: comment-only, white-space-only and empty inputs are element-less -/
 example : firstFault 0 [.ignored, .text (.ok []), .eof] = none ∧ hasElement 0 [.ignored, .text (.ok []), .eof] = false := by decide
 example : firstFault 0 [.eof] = none ∧ hasElement 0 [.eof] = false := by decide
+
+/-- non-vacuity of `C06_substructure`: in `<a><b/><b x=""/></a>` the element at path `b` exists and is marked as repeated -/
+example :
+    let d : Doc := ⟨.nil, .mk (cl!"a") [] false (.elem (.mk (cl!"b") [] true .nil) (.elem (.mk (cl!"b") [cl!"x"] true .nil) .nil)), .nil⟩
+    (match parseHistory [d.events] with
+     | .ok t => (elemAt [(cl!"b")] t).map (fun s => (s.standalone, s.count))
+     | .error _ => none) = some (false, 2) := by decide
 
 end Xsg
